@@ -52,6 +52,9 @@ type Tracer struct {
 	free    int32             // 1 = all gates open
 	workers map[int64]bool    // goroutines seen at wk.start
 
+	// AutoRoles names library goroutines by the prefix of the first hook point they hit
+	AutoRoles map[string]string
+
 	// perturbation (free running mode)
 	perturb int32
 	rngMu   sync.Mutex
@@ -144,6 +147,12 @@ func (t *Tracer) Hook(point string, args ...interface{}) {
 	if role == "" && t.workers[g] {
 		role = "worker"
 	}
+	if role == "" && t.AutoRoles != nil && len(point) > 3 {
+		if r, ok := t.AutoRoles[point[:3]]; ok {
+			role = r
+			t.roles[g] = r
+		}
+	}
 	t.events = append(t.events, Event{Seq: t.seq, G: g, Role: role, Point: point, Args: args})
 	var w *waiter
 	if atomic.LoadInt32(&t.free) == 0 && t.gated[point] && role != "" && !inLock[point] && gateApplies(point, role) {
@@ -200,6 +209,10 @@ func gateApplies(point, role string) bool {
 		return role == "sd"
 	case point == "wk.start" || point == "cb.body":
 		return role == "worker"
+	case len(point) > 3 && point[:3] == "ql.":
+		return role == "ql"
+	case len(point) > 3 && point[:3] == "qx.":
+		return role == "timer"
 	}
 	return true
 }
@@ -229,6 +242,10 @@ func (t *Tracer) FreeAll() {
 
 // WaitingAt returns a goroutine of the given role parked at one of the points
 // (for role "worker": excluding the goroutines in skip).
+func (t *Tracer) WaitingAt(role string, points ...string) bool {
+	return t.waitingAt(role, points, nil, nil) != nil
+}
+
 func (t *Tracer) waitingAt(role string, points []string, only map[int64]bool, skip map[int64]bool) *waiter {
 	t.mu.Lock()
 	defer t.mu.Unlock()
@@ -250,6 +267,18 @@ func (t *Tracer) waitingAt(role string, points []string, only map[int64]bool, sk
 		}
 	}
 	return best
+}
+
+// Step releases the goroutine of role parked at one of points (waiting up to d for
+// it to arrive) and lets it run until it parks again or settle elapses.
+func (t *Tracer) Step(role string, points []string, d, settle time.Duration) bool {
+	w := t.AwaitParked(role, points, nil, nil, d)
+	if w == nil {
+		return false
+	}
+	t.Release(w)
+	t.Settle(w.g, settle)
+	return true
 }
 
 // AwaitParked waits until a goroutine of role is parked at one of points.
